@@ -644,12 +644,11 @@ Lemma gstep_events_inside k g t st th n rest :
     | inl _ => []
     | inr res =>
         fin_events t res ++
-        ERel t :: obs_events k t res sh' (result_cell n (s_sh st) (t_pc th)) ++
-        match s_waitq st with w :: _ => EAcq w :: enter_events w | [] => [] end
+        ERel t :: obs_events k t res sh' (result_cell n (s_sh st) (t_pc th))
     end.
 Proof.
   intros Ht Hc Hin. unfold gstep_events. rewrite Ht, Hc.
-  destruct (t_pc th); try reflexivity. exfalso; apply Hin; left; reflexivity.
+  destruct (t_pc th); try reflexivity; exfalso; apply Hin; [left | right]; reflexivity.
 Qed.
 
 (* the new holder w, at cache.lookup with an empty stack, sees everything written so far *)
@@ -726,40 +725,22 @@ Proof.
     destruct R1 as [H1 H2 H3 H4 _ _].
     cbn [drun dstep]. pose proof H1 as H1'. apply holds_spec in H1'. rewrite H1'.
     set (ds2 := mkD None (d_written ds1) (d_vis ds1)).
-    assert (Hobs : forall tail, drun ds2 (obs_events k t res sh' (result_cell n (s_sh st) (t_pc th)) ++ tail)
-                                = drun ds2 tail).
-    { intros tail. unfold obs_events. destruct res as [| |tr]; [reflexivity | reflexivity|].
+    assert (Hobs : drun ds2 (obs_events k t res sh' (result_cell n (s_sh st) (t_pc th))) = Some ds2).
+    { rewrite <- (app_nil_r (obs_events _ _ _ _ _)).
+      unfold obs_events. destruct res as [| |tr]; [reflexivity | reflexivity|].
       destruct (result_cell n (s_sh st) (t_pc th)) as [c|]; [|reflexivity].
       destruct Hrc as [E|Bc]; [exfalso; exact (E tr eq_refl)|].
       destruct LO as [(_ & W' & _) | (E & _)]; [|discriminate E].
-      apply drun_obs. intros x Hx. cbn [ds2 d_vis]. apply H3. apply H2.
+      rewrite drun_obs; [reflexivity|]. intros x Hx. cbn [ds2 d_vis]. apply H3. apply H2.
       eapply obs_cells_linked; eauto. }
     rewrite Hobs. subst ds2.
     (* the cache after the call has the same heap *)
     assert (Hheap : heap (finish_shared res sh') = heap sh') by (destruct res; reflexivity).
-    assert (Hl' : forall c, linked (finish_shared res sh') c -> In c (d_written ds1)).
-    { intros c L. apply H2. apply (linked_same sh' _ c Hheap). exact L. }
-    assert (Hlt' : forall c, In c (d_written ds1) -> c < length (heap (finish_shared res sh'))).
-    { rewrite Hheap. exact H4. }
-    unfold release. cbn [s_sh s_lock s_waitq s_thr].
-    destruct (s_waitq st) as [|w q] eqn:Eq.
-    + eexists. split; [reflexivity|]. split; cbn [s_sh s_lock d_holder d_written].
-      * reflexivity.
-      * exact Hl'.
-      * exact Hlt'.
-      * intros h th' Eh. discriminate Eh.
-    + destruct (gi_waitq _ _ _ _ I) as [_ Hw].
-      assert (Hwin : In w (s_waitq st)) by (rewrite Eq; left; reflexivity).
-      apply Hw in Hwin. destruct Hwin as (tw & Htw & Hpw).
-      assert (Hwt : w <> t) by (intros ->; rewrite Ht in Htw; inversion Htw; subst tw; apply Hin; right; exact Hpw).
-      rewrite nth_error_set_nth_neq by congruence. rewrite Htw.
-      eexists. split; [apply enter_ok; reflexivity|].
-      apply rel_new_holder with (tw := with_pc tw PLookup); cbn [d_holder d_written].
-      * reflexivity.
-      * intros c L. apply Hl'. apply (linked_same (finish_shared res sh') _ c eq_refl). exact L.
-      * exact Hlt'.
-      * apply nth_set_eq with (y := tw). rewrite nth_error_set_nth_neq by congruence. exact Htw.
-      * reflexivity.
+    eexists. split; [reflexivity|]. unfold release. split; cbn [s_sh s_lock s_thr d_holder d_written].
+    + reflexivity.
+    + intros c L. apply H2. apply (linked_same sh' _ c Hheap). exact L.
+    + rewrite Hheap. exact H4.
+    + intros h th' Eh. discriminate Eh.
 Qed.
 
 Lemma gstep_rel st t ds :
@@ -789,7 +770,16 @@ Proof.
       * exact H3.
       * eapply nth_set_eq; eauto.
       * reflexivity.
-  - (* PWait *) exists ds. split; [reflexivity | exact R].
+  - (* PWait *)
+    destruct (s_lock st) as [h|] eqn:El; [exists ds; split; [reflexivity | exact R]|].
+    destruct R as [H1 H2 H3 H4]. rewrite El in H1.
+    eexists. split; [apply enter_ok; exact H1|].
+    apply rel_new_holder with (tw := with_pc th PLookup).
+    * exact H1.
+    * intros c L. apply H2. apply (linked_same (s_sh st) _ c eq_refl). exact L.
+    * exact H3.
+    * eapply nth_set_eq; eauto.
+    * reflexivity.
   - assert (Hin : ~ outside (t_pc th)) by (rewrite Hp; intros [E|E]; discriminate E).
     destruct (gstep_rel_inside st t th n rest ds I R Ht Hc Hin) as (ds' & Hd & R').
     unfold gstep_events, gstep in Hd, R'; rewrite Ht, Hc, Hp in Hd, R'.
